@@ -41,6 +41,7 @@ type checker struct {
 	files   map[string]*lib.CasesFile
 	forced  int // failing cases forced into the Coq files
 	samples int
+	coqCfgs map[Config]bool    // configurations met by the cases evaluated in Coq
 	classes map[string]*vclass // every violation, grouped by clause and the kinds of value involved (triage aid)
 }
 
@@ -104,6 +105,15 @@ func caseGallina(mv *MV, cfg Config, out outcome, resM *MV) string {
 func (ck *checker) checkValue(root px.Context, spec *Spec, registered bool, cfgs []Config, emit func(i int) bool, family string, verbose bool) {
 	res := ck.res
 	pcore.DoWithParent(root, func(ctxS px.Context) {
+		// a panic of the library outside Convert/Value (while the value is built or reflected) must not
+		// end the run without a replayable input
+		defer func() {
+			if e := recover(); e != nil && len(cfgs) > 0 {
+				res.Violate(lib.Violation{Clause: "roundtrip-no-fault",
+					What:  fmt.Sprintf("%s: the library panicked while the value was prepared or reflected: %s", spec, panicClass(e)),
+					Input: Input{Kind: "c10", Spec: spec, Registered: registered, Cfg: cfgs[0]}})
+			}
+		}()
 		var env *typeEnv
 		if spec.hasUserTypes() {
 			env = newTypeEnv(ctxS, registered)
@@ -228,6 +238,7 @@ func (ck *checker) checkValue(root px.Context, spec *Spec, registered bool, cfgs
 				}
 				if ok {
 					ck.file(family).Add(caseGallina(mv, cfg, out, resM), in)
+					ck.coqCfgs[cfg] = true
 				}
 			}
 			if res.Evaluations%4099 == 1 && ck.samples < 6 {
@@ -254,7 +265,7 @@ func main() {
 		_ = pprof.StartCPUProfile(f)
 		defer pprof.StopCPUProfile()
 	}
-	ck := &checker{cfg: cfg, res: res, files: map[string]*lib.CasesFile{}, classes: map[string]*vclass{}}
+	ck := &checker{cfg: cfg, res: res, files: map[string]*lib.CasesFile{}, classes: map[string]*vclass{}, coqCfgs: map[Config]bool{}}
 	pcore.Do(func(root px.Context) {
 		if cfg.Replay != "" {
 			ck.replay(root)
@@ -262,7 +273,7 @@ func main() {
 			ck.run(root, lib.NewRng(cfg.Seed))
 		}
 	})
-	names := []string{"corpus", "exhaustive", "random_a", "random_b", "replay"}
+	names := []string{"corpus", "exhaustive", "random_a", "random_b", "random_c", "random_d", "replay"}
 	for _, n := range names {
 		if f, ok := ck.files[n]; ok {
 			res.CorrFiles = append(res.CorrFiles, f.WriteTo(cfg.Out, "cases_"+n))
@@ -308,6 +319,13 @@ func (ck *checker) run(root px.Context, rng *lib.Rng) {
 			ck.checkValue(root, s, reg, cfgs, pick(rng.Fork(), 5, len(cfgs)), "corpus", false)
 		}
 	}
+	// 1b. matrix sweep: two values that exercise every option and capability (two Sensitive and two Binary
+	// with repeats and strings equal to their degraded forms, a rich scalar, Default, strings around the
+	// thresholds as values and as keys, a hash with non-string keys) go through the MODEL under all 192
+	// configurations, so that the model tie itself covers the whole matrix on every run.
+	for _, s := range matrixValues() {
+		ck.checkValue(root, s, false, cfgs, func(int) bool { return true }, "exhaustive", false)
+	}
 	// 2. bounded-exhaustive sharing families; in the quick tier the longer arrays run a rotating quarter
 	// of the matrix each (every configuration is met by a quarter of the values)
 	maxLen := 3
@@ -337,10 +355,15 @@ func (ck *checker) run(root px.Context, rng *lib.Rng) {
 	ck.res.Extra["exhaustive_values"] = n
 	ck.res.Extra["exhaustive_max_len"] = maxLen
 	ck.res.Extra["configurations"] = len(cfgs)
+	defer func() { ck.res.Extra["configurations_in_coq_cases"] = len(ck.coqCfgs) }()
 	// 3. seeded random; quick tier: a random third of the matrix per value
+	// the Coq cases of the random family go to 2 (quick) or 4 (thorough) files evaluated in parallel by the
+	// driver (at most ~1 500 cases per file)
 	nRandom, perValue := 260, 3
+	randomFiles := []string{"random_a", "random_b"}
 	if thorough {
-		nRandom, perValue = 6000, 1
+		nRandom, perValue = 4000, 1
+		randomFiles = []string{"random_a", "random_b", "random_c", "random_d"}
 	}
 	for i := 0; i < nRandom; i++ {
 		r := rng.Fork()
@@ -357,8 +380,7 @@ func (ck *checker) run(root px.Context, rng *lib.Rng) {
 			}
 		}
 		for _, reg := range scenarios(s) {
-			// two Coq files, evaluated in parallel by the driver
-			ck.checkValue(root, s, reg, sel, pick(r, perValue, len(sel)), []string{"random_a", "random_b"}[i%2], false)
+			ck.checkValue(root, s, reg, sel, pick(r, perValue, len(sel)), randomFiles[i%len(randomFiles)], false)
 		}
 	}
 }
